@@ -39,6 +39,19 @@ var frontStmts = []frontStmt{
 	{"DELETE l[0] FROM ks.t WHERE k = '%s'", true},
 	{"DELETE v FROM ks.t WHERE k = '%s'", true},
 	{"INSERT INTO ks.t (k, v) VALUES ('%s', 1) IF NOT EXISTS", true},
+	// conditions spelled in the less usual places
+	{"INSERT INTO ks.t JSON '{\"k\": \"%s\"}'", true},
+	{"INSERT INTO ks.t JSON '{\"k\": \"%s\"}' DEFAULT UNSET IF NOT EXISTS", true},
+	{"INSERT INTO ks.t JSON '{\"k\": \"%s\"}' DEFAULT NULL IF NOT EXISTS USING TTL 5", true},
+	{"INSERT INTO ks.t JSON '{\"k\": \"%s\"}' DEFAULT NULL USING TIMESTAMP 5", true},
+	{"INSERT INTO ks.t (k, v) VALUES ('%s', 1) USING TTL 5 AND TIMESTAMP 6", true},
+	{"UPDATE ks.t SET v = 1 WHERE k = '%s' IF v = 2", true},
+	{"UPDATE ks.t USING TTL 5 SET v = 1 WHERE k = '%s' IF EXISTS", true},
+	{"DELETE FROM ks.t WHERE k = '%s' IF v IN (1, 2)", true},
+	{"DELETE FROM ks.t USING TIMESTAMP 5 WHERE k = '%s'", true},
+	{"BEGIN BATCH INSERT INTO ks.t (k, v) VALUES ('%s', uuid()) INSERT INTO ks.t (k, v) VALUES ('x', 1) APPLY BATCH", true},
+	{"BEGIN BATCH INSERT INTO ks.t (k, v) VALUES ('%s', 1) UPDATE ks.t SET v = 2 WHERE k = 'x' IF EXISTS APPLY BATCH", true},
+	{"BEGIN UNLOGGED BATCH USING TIMESTAMP 5 INSERT INTO ks.t (k, v) VALUES ('%s', 1); DELETE FROM ks.t WHERE k = 'y'; APPLY BATCH", true},
 	{"SELECT v FROM ks.t WHERE k = '%s'", true},
 	{"SELECT v FROM t2 WHERE k = '%s'", true},
 	{"BEGIN BATCH INSERT INTO ks.t (k, v) VALUES ('%s', 1) APPLY BATCH", true},
@@ -59,6 +72,10 @@ var frontPrepared = []string{
 	"UPDATE ks.t SET c = c + ? WHERE k = ?",
 	"SELECT v FROM ks.t WHERE k = ?",
 	"DELETE FROM ks.t WHERE k = ? IF EXISTS",
+	"INSERT INTO ks.t JSON :payload IF NOT EXISTS",
+	"INSERT INTO ks.t JSON ? DEFAULT UNSET IF NOT EXISTS",
+	"INSERT INTO ks.t JSON ?",
+	"UPDATE ks.t SET v = ? WHERE k = ? IF v = ?",
 	"UPDATE ks.t SET s = s + ? WHERE k = ?",
 }
 
